@@ -379,8 +379,17 @@ example : NoCaseDupDemands exampleWiring.userDemands := noCaseDup_of_B _ (by dec
 example : (scanOutputs exampleWiring).userDevices.map (·.device) = ["P1", "LI"] := by decide +kernel
 example : (scanOutputs exampleWiring).pumps.map (·.key) = ["P1"] ∧ (scanOutputs exampleWiring).lights.map (·.stateKey) = ["UdLi"] := by
   decide +kernel
-example : SyncOrder exampleWiring ["L120", "P1", "LI"] := by
-  show List.Perm ["L120", "P1", "LI"] exampleWiring.actualDevices
+/-- the table order is always an admissible order of the threaded scan … -/
+example : SyncOrder exampleWiring exampleWiring.actualDevices := by
+  unfold SyncOrder
+  split
+  · exact List.Perm.refl _
+  · rfl
+
+/-- … and while the threaded facade de-duplicates with `set(..)`, so is any other arrangement (D10) -/
+example (h : syncDedup = .hashSet) : SyncOrder exampleWiring ["L120", "P1", "LI"] := by
+  unfold SyncOrder
+  rw [h]
   have : exampleWiring.actualDevices = ["P1", "L120", "LI"] := by decide +kernel
   rw [this]
   exact List.Perm.swap _ _ _
